@@ -33,7 +33,7 @@ PROPS["C16"] = dict(
     level="exploration",
     engine="E1",
     parts=[dict(bin="e1_shard_edge")],
-    rule="case = (ShardEdge impl, n, eps, max_shard choice) set-up through set_up_shards+set_up_graphs; inside each case the cross product of extreme values of both signature words (0,1,2^32+-1,2^63,MAX-1,MAX, alternating, every 2^j, ~2^j, 2^j-1: 190 values per word) is evaluated; a case is non-trivial when the set-up succeeded and is not a duplicate of another max_shard choice",
+    rule="case = (ShardEdge impl, n, eps, max_shard choice) set-up through set_up_shards+set_up_graphs; inside each case the cross product of extreme values of both signature words (0,1,2^32+-1,2^63,MAX-1,MAX, alternating, every 2^j, ~2^j, 2^j-1: 190 values per word) is evaluated, plus first words at the steps of the fixed-point inversions (within -2..=shards+2 of k 2^64/M and k 2^32/M for every cell count M of the public geometry and k in {1,2,3,M/2,M-2,M-1}, pulled back through every shift/rotation by 0, shard bits, shard bits + 1) x 6 second words; a case is non-trivial when the set-up succeeded and is not a duplicate of another max_shard choice",
     alphabet="7 ShardEdge impls (FuseLge3Shards, FuseLge3NoShards x [u64;2]/[u64;1], FuseLge3FullSigs, Mwhc3Shards, Mwhc3NoShards); eps in {0.001,0.01,0.1}; max_shard in {ceil(n/s), floor(1.01 n/s)} (n when s=1)",
     bound={"quick": "every n in 0..=2500, powers of 2 and 10 +-1 to 10^12, 50000 j +-1, values just below each shard-count switch, 12% geometric grid to 10^12; signature grid thinned 1/3 above n=2500 and 1/5 above 10^6",
            "thorough": "every n in 0..=20000, same boundaries, 1% geometric grid to 10^12"},
@@ -190,7 +190,7 @@ PROPS["C20"] = dict(
     level="exploration",
     engine="E1",
     parts=[dict(bin="e1_lenders")],
-    rule="case = (lender kind, Take(n) or none, input text); inside each case ALL histories of <= 3 rounds (consume c items, rewind), c in {0,1,L-1,L,L+1 (reads past the end)}, followed by a full pass; texts: ALL texts of <= 3 (thorough 4) lines over {\"\", a, bc, a 9000-byte line (> BufReader capacity), d+CR, a lone CR} x {LF, CRLF} x final terminator present/absent; one 4000-line ~300 KiB text for multi-block compressed streams; FromIntoIterator over ranges and Vec<String> of 0..=4 items; Take(n) for n in {0,1,L-1,L,L+1}; non-trivial = at least 2 items",
+    rule="case = (lender kind, Take(n) or none, input text); inside each case ALL histories of <= 3 rounds (consume c items, rewind), c in {0,1,L-1,L,L+1 (reads past the end)}, followed by a full pass; texts: ALL texts of <= 3 (thorough 4) lines over {\"\", a, bc, a 9000-byte line (> BufReader capacity), d+CR, a lone CR} x {LF, CRLF} x final terminator present/absent; one 4000-line ~300 KiB text for multi-block compressed streams; streams of 2-3 concatenated zstd frames / gzip members over 6 pieces (including empty ones) and two of 150 KiB each, with the first pass of a fresh lender as reference; FromIntoIterator over ranges and Vec<String> of 0..=4 items; Take(n) for n in {0,1,L-1,L,L+1}; non-trivial = at least 2 items",
     alphabet="LineLender over Cursor and over a real file, ZstdLineLender, GzipLineLender, FromIntoIterator, lender::Take of each",
     bound={"quick": "texts of <= 3 lines, 3 rounds", "thorough": "texts of <= 4 lines, 3 rounds"},
     oracle="after every history a full pass yields exactly the reference lines (reference splitter applied to the text itself: split on LF, one CR immediately before the LF removed, final unterminated non-empty piece kept as is - a lone CR is not a terminator), each Ok; items consumed before a rewind are also compared",
@@ -206,7 +206,7 @@ PROPS["C07"] = dict(
     traces_from_counter=True,
     parts=[dict(bin="e1_vfunc", opts={"prop": "C07", "traces": 1}, timeout_s={"quick": 900, "thorough": 14400}),
            dict(bin="e5_proto", shards=4)],
-    rule="E1: case = (type-level configuration, n, run-time configuration): EVERY n in 0..=N with the default configuration; every n in 0..=N1 x every single-axis run-time deviation (offline, low_mem true/false, threads 1/2/3, eps 0.01/0.1, log2_buckets 0/4, seeds 1..3, hint absent/half/2n+7/400000/800000/0, values all-zero/all-MAX/identity, check_dups); all pairs of 14 run-time deviations at n in {0,1,2,3,10,99,100,101(,1000)}; 16 type-level configurations (key types usize/u64/str/String, Box<[u8|u16|u32|u64|usize]>, BitFieldVec<u8|u16|u64|usize>, [u64;1]/[u64;2] x FuseLge3NoShards, FuseLge3FullSigs, Mwhc3Shards, Mwhc3NoShards) for every n in 0..=N2; regime boundaries 50000, 99999..100001, 150000 (2 shards; thorough up to 800001). E5: all reachable states of the par_solve model for workers in 1..=3, shards in 1..=4, every per-shard outcome assignment in {ok, duplicate, unsolvable} (+ empty when shards = 1). non-trivial = n >= 2",
+    rule="E1: case = (type-level configuration, n, run-time configuration): EVERY n in 0..=N with the default configuration; every n in 0..=N1 x every single-axis run-time deviation (offline, low_mem true/false, threads 1/2/3, eps 0.01/0.1, log2_buckets 0/4, seeds 1..3, hint absent/half/2n+7/400000/800000/0, values all-zero/all-MAX/identity, check_dups); EVERY value width 1..=64 (usize; u16 and u8 up to their width) at n in {1,100,1000}; every key is also read through get_unaligned where the backend has it and the width admits it; all pairs of 14 run-time deviations at n in {0,1,2,3,10,99,100,101(,1000)}; 16 type-level configurations (key types usize/u64/str/String, Box<[u8|u16|u32|u64|usize]>, BitFieldVec<u8|u16|u64|usize>, [u64;1]/[u64;2] x FuseLge3NoShards, FuseLge3FullSigs, Mwhc3Shards, Mwhc3NoShards) for every n in 0..=N2; regime boundaries 50000, 99999..100001, 150000 (2 shards; thorough up to 800001). E5: all reachable states of the par_solve model for workers in 1..=3, shards in 1..=4, every per-shard outcome assignment in {ok, duplicate, unsolvable} (+ empty when shards = 1). non-trivial = n >= 2",
     alphabet="see rule",
     bound={"quick": "N=400, N1=160, N2=130", "thorough": "N=6000, N1=1500, N2=600, sizes to 800001"},
     oracle="E1: Ok(f), f.len() == n, f.get(k_i) == v_i for every pair; termination under a 120 s per-case watchdog; E5: no deadlock, every terminal state consistent (Ok => every shard solved exactly once or empty; a failing shard => Err); binding: every real par_solve event log (thousands per run, including the unsolvable-shard retry path, which small key sets take very often) must be accepted by the model (tau-closure subset construction)",
@@ -219,7 +219,7 @@ PROPS["C08"] = dict(
     level="exploration",
     engine="E1",
     parts=[dict(bin="e1_vfunc", opts={"prop": "C08"}, timeout_s={"quick": 900, "thorough": 14400})],
-    rule="case = (backend, hash width b, n, run-time configuration): every n in 0..=N for the 8-bit BitFieldVec<usize> and Box<[u8]> filters; n in {0,1,3,10,100,101,1000} x b in {1,2,3,7,8,9,15,16,31,32,33,63,64} (BitFieldVec<usize>), b in 1..=8 (BitFieldVec<u8>), Box<[u8|u16|u32|u64]>, four other shard/edge logics, every single-axis run-time deviation; BitFieldVec<u16|u32|u64> at their full width and one below; false positives counted exhaustively over a fixed 2^16-element non-member probe set for EVERY width at n = 10 and n = 1000 (for wide hashes the accepted band is [0, 2]) and at n = 100000 (b in {1,4,8,12} and Box<[u8]>)",
+    rule="case = (backend, hash width b, n, run-time configuration): every n in 0..=N for the 8-bit BitFieldVec<usize> and Box<[u8]> filters; n in {0,1,3,10,100,101,1000} x b in {1,2,3,7,8,9,15,16,31,32,33,63,64} (BitFieldVec<usize>), b in 1..=8 (BitFieldVec<u8>), Box<[u8|u16|u32|u64]>, four other shard/edge logics, every single-axis run-time deviation; BitFieldVec<u16|u32|u64> at their full width and one below; membership is also asked through contains_unaligned (bit-field backends, admissible widths) and must agree with contains on every member and every probe; false positives counted exhaustively over a fixed 2^16-element non-member probe set for EVERY width at n = 10 and n = 1000 (for wide hashes the accepted band is [0, 2]) and at n = 100000 (b in {1,4,8,12} and Box<[u8]>)",
     alphabet="see rule",
     bound={"quick": "N=200", "thorough": "N=1500, sizes also 5000, 150000, 400001"},
     oracle="contains(k) and filter[k] true for every inserted key; len() == n; hash_bits() == b; false-positive count within mean +- (6 sigma + 2) of the binomial(2^16, 2^-b) distribution (deterministic: fixed seeds, fixed probes)",
@@ -234,8 +234,8 @@ PROPS["C17"] = dict(
     parts=[dict(bin="e4_fault", timeout_s={"quick": 900, "thorough": 7200}), dict(bin="e5_proto", shards=4)],
     rule="fault case = (builder kind, n, fault): for every builder kind (function/filter, online/offline store, FuseLge3Shards, FuseLge3NoShards with 64-bit signatures, FuseLge3FullSigs without hint) and n in {0,1,2,5,16} a fault-free reference build determines the number P of passes over the sources (retries after unsolvable shards make P > 1 for most small key sets); then EVERY (pass p, index i <= n) of the key source, every (p, i < n) of the value source and every rewind of either source is failed in turn (first 4 passes (thorough 8) and the last one), plus one pair of faults; the same for keys read as lines through the crate's LineLender over a reader that fails at EVERY byte offset (line boundaries, inside lines, end of input) of every pass; duplicate case = (kind, n in {2,3,5,12}, EVERY pair placement (i,j), triples, all-equal, threads 1/3) with check_dups(true); thorough adds one duplicate inside 10 000 and 120 000 keys; E5 part: deadlock freedom of the par_solve model when shards fail; non-trivial = n >= 2",
     alphabet="fault-injecting RewindableIoLender for keys and values (marker errors), duplicate key placements",
-    bound={"quick": "n <= 16, first 4 passes + last", "thorough": "n <= 40, first 8 passes + last, large duplicate sets"},
-    oracle="the call returns within the watchdog; if a fault was delivered the result is Err and its chain contains the injected marker, never Ok; if the fault position was never reached the result is Ok and every key maps to its value; duplicates: Err(DuplicateKey) after exactly 4 signature passes (counted by the lender), never Ok",
+    bound={"quick": "n <= 16, first 4 passes + last; duplicate keys at n <= 12 (every pair) and at 200 000 keys (4 shards) with 1 and 2 solver threads", "thorough": "n <= 40, first 8 passes + last, duplicate sets at 10 000, 120 000, 200 000 and 800 000 keys (16 shards)"},
+    oracle="the call returns within the watchdog; if a fault was delivered the result is Err and its chain contains the injected marker, never Ok; if the fault position was never reached the result is Ok and every key maps to its value; duplicates: Err(DuplicateKey) after exactly 4 (at least 4 above the sharding threshold, where other transient failures add attempts) signature passes (counted by the lender), never Ok",
     assumptions=VF_ASSUME,
 )
 LEVEL_TEXT["C17"] = "Exhaustive enumeration of single fault positions (every index of every pass, every rewind) and of duplicate-key placements on the real builders with fault-injecting sources; plus deadlock freedom of the par_solve protocol model when shards fail (E5)."
@@ -248,7 +248,7 @@ PROPS["C13"] = dict(
            dict(bin="e3_free", runner="miri", profile="miri", shards=8, tiers=["thorough"], tag="race-detector")],
     rule="case = one concurrent body (2-3 real threads, 1-2 operations each) explored over all schedules within the preemption bound: (1) AtomicBitVec: ALL unordered pairs of single operations from {set(i,b), swap(i,b), get(i)} x i in {0,1,63,64} (same bit, same word, adjacent words) plus 3-thread swaps on one shared bit and 2-op programs; (2) AtomicBitFieldVec<u8|u16|usize> for widths {1,3,5,7}/{5,11}/{5,13,63}: ALL pairs and (half of / thorough: all) triples of distinct indices among the first 6 elements (same word both inside; adjacent; straddling + inside its low / high word; two straddlers sharing a word), each writer storing one value (thorough: two), plus two writers around an element read concurrently by a third thread; (3) EliasFanoConcurrentBuilder: 6 value sets (l = 0 and l > 0, low parts / high bits sharing a word), EVERY partition of the indices into 2 and 3 threads, ascending and descending order inside a thread",
     alphabet="scheduling points = every atomic load / store / RMW / compare-exchange iteration performed through the hooked slices of AtomicBitVec::{get,set,swap}_unchecked and AtomicBitFieldVec::{get,set}_atomic_unchecked",
-    bound={"quick": "preemption bound 2 (bodies with <= 2 operations: unbounded); horizon 10000 points", "thorough": "preemption bound 3"},
+    bound={"quick": "preemption bound 2 (bodies with <= 2 operations: unbounded); horizon 10000 points", "thorough": "preemption bound 4"},
     oracle="AtomicBitVec: return values and final bits explained by some sequential order of the operations (brute force over all merges); AtomicBitFieldVec: every written element holds its writer's value, every other element unchanged, a concurrent reader of an unwritten element sees its value; EliasFano: the concurrently built structure answers get/iter/succ/pred/index_of like the sequentially built one; a failing schedule is replayed twice and must reproduce",
     assumptions=STRICT + ["sequentially consistent interleavings at atomic-operation granularity; complete for what C13 observes (values after join, return values of single-word RMWs) because per-location modification order is total under every memory ordering and distinct words are independent in both observations (DESIGN.md section 2.3)", "every shared access in these methods is an atomic operation routed through the hooked slice (no unsynchronised shared data) - the thorough tier supports this with a separate free-running pass (bin e3_free: the same kinds of bodies on unsynchronised threads under Miri's data-race detector, 8 scheduler seeds; counters race_detector_*), which is a companion check and not part of the exploration: it contributes no evaluations, states or transitions"],
     mc_note="states = complete executions (distinct schedules) run on the real code under the controlled scheduler; transitions = scheduling points; every execution is an execution of the implementation, so traces_validated_against_impl = transitions",
